@@ -91,23 +91,6 @@ Proof. exact dump_perm. Qed.
 Print Assumptions C13_dump_is_view.
 
 (* ---------- non-vacuity: a history in which every kind of failure and a diverging clone occur ---------- *)
-Definition na : name := b#"a".
-Definition nb : name := b#"b".
-Definition nc : name := b#"c".
-
-Definition demo : list op :=
-  [ Reg 0 (RMethod na 1);            (* ok *)
-    Reg 0 (RAsync na 2);             (* a taken *)
-    Reg 0 (RSub false nb nb 3);      (* subscribe = unsubscribe *)
-    Reg 0 (RSub false nb na 4);      (* unsubscribe name taken *)
-    Alias 0 nc nb;                   (* alias of a missing name *)
-    Clone 0;                         (* module 1 *)
-    Reg 0 (RSub true nb nc 5);       (* ok on module 0 only *)
-    MergeMod 1 0;                    (* shares a *)
-    Remove 0 na;
-    MergeMod 0 1;                    (* now disjoint: ok *)
-    Call 0 na; Call 1 nb; Call 0 nc ].
-
 Example C13_demo_observations :
   map fst (run_trace demo) =
   [ ORes None; ORes (Some (AlreadyRegistered na)); ORes (Some (SubscriptionNameConflict nb));
